@@ -86,6 +86,7 @@ package common
 //@   ensures [nodes] err == nil ==> (forall k int :: {result0.Nodes[k]} 0 <= k && k < len(result0.Nodes) ==> NodeKeysParsed(result0.Nodes[k]))
 //@   ensures [alloc] err == nil ==> (forall k int :: {result0.Nodes[k]} 0 <= k && k < len(result0.Nodes) ==> allocated(result0.Nodes[k]) && allocated(result0.Nodes[k].Extra))
 //@       -- the returned objects exist in the state returned to the caller (lets callers frame their own loops with loopentry)
+//@   ensures [alloc-nodes] err == nil ==> allocated(result0.Nodes) && allocated(result0.Custodian) && allocated(result0.Signature)   -- C11: every part of the result exists
 //@   ensures [unique] err == nil ==> (forall a, b int :: {result0.Nodes[a], result0.Nodes[b]} 0 <= a && a < len(result0.Nodes) && 0 <= b && b < len(result0.Nodes) && a != b ==>
 //@       SpendKeysDisjoint(result0.Nodes[a], result0.Nodes[b]))
 //@   ensures [signed] err == nil && !genesis ==> (forall k int :: {result0.Nodes[k]} 0 <= k && k < len(result0.Nodes) ==> NodeSigned(result0.Nodes[k]))
@@ -97,6 +98,7 @@ package common
 //@   ensures [approval-sig] err == nil ==> SigAt(*result0.Signature, extra, len(extra) - 64)
 //@   ensures [input-kept] forall i int :: 0 <= i && i < len(extra) ==> extra[i] == old(extra[i])
 //@   ensures [reject] err != nil ==> result0 == nil
+//@   assumes [deterministic] err == nil ==> ReqIs(result0, seq(extra), genesis)   -- C11: zz_contracts_c11_verif.go (the parser is a function of its arguments)
 //@   loop 0 invariant len(nodes) * custodianNodeExtraSize == len(nodesExtra) && len(nodesExtra) == len(extra) - 128 && len(extra) >= 2599
 //@   loop 0 invariant forall k int :: {nodes[k]} 0 <= k && k <= rangeindex ==> NodeShape(nodes[k]) && allocated(nodes[k]) && allocated(nodes[k].Extra)
 //@   loop 0 invariant forall k int :: {nodes[k]} 0 <= k && k <= rangeindex ==> NodeKeysParsed(nodes[k]) && (!genesis ==> NodeSigned(nodes[k]))
